@@ -65,21 +65,21 @@ def flip_case_expectation(rows, k=3):
     return out
 
 
-def record_and_validate(chk, driver, trace_module, trace_cfg, n_events, n_traces, key, canary=None, timeout=900):
+def record_and_validate(chk, driver, trace_module, trace_cfg, n_events, n_traces, key, canary=None, timeout=900, silent=False):
     wd = vlib.workdir(chk.prop)
     first = None
     for t in range(n_traces):
         seed = chk.seed * 1000 + t
         p = os.path.join(wd, "%s.%d.ndjson" % (driver, t))
         vlib.vh_record(driver, seed, n_events, p)
-        v = chk.validate(trace_module, trace_cfg, p, key, timeout=timeout)
+        v = chk.validate(trace_module, trace_cfg, p, key, timeout=timeout, silent=silent)
         if not v["accepted"]:
             chk.violations[-1]["detail"]["reproduce"] = dict(driver=driver, seed=seed, n=n_events,
                                                              trace_module=trace_module, trace_cfg=trace_cfg)
         if first is None and v["accepted"]:
             first = p
     if canary and first:
-        chk.canary_trace(trace_module, trace_cfg, first, canary)
+        chk.canary_trace(trace_module, trace_cfg, first, canary, silent=silent)
 
 
 def replay_file(prop, path):
@@ -452,3 +452,53 @@ def c09(chk):
     chk.level = "model_checking"
     chk.assumptions += ["a failing storage call has no effect and returns an error (the fault model of the property)",
                         "Ed25519/EdDSA only (the key type of the shipped in-memory store)"]
+
+
+# ------------------------------------------------------------------------------------------------
+# C15 — key stores
+# ------------------------------------------------------------------------------------------------
+
+def corrupt_race_trace(evs):
+    """canary: claim that a losing insert succeeded"""
+    for i in range(len(evs) // 3, len(evs)):
+        e = evs[i]
+        if e.get("ev") == "ret" and e["res"].get("ok") is False and "kid" not in e["res"]:
+            # only flip results of inserts: find the matching call
+            for j in range(i - 1, -1, -1):
+                c = evs[j]
+                if c.get("ev") == "call" and c["t"] == e["t"]:
+                    if c["name"] == "insert_key_id":
+                        e["res"]["ok"] = True
+                        return "event %d: a failed racing insert reported as successful" % (i + 1)
+                    break
+    raise ToolError("canary: no losing insert in the recorded races")
+
+
+@plan("C15")
+def c15(chk):
+    chk.rule = ("Sequential: TLC explores every history of generate/insert/sign/delete/exists and insert/get/delete_key_id with "
+                "valid and invalid arguments up to MaxKeys issued ids (quick 3, thorough 4) x 2 digests; every transition is "
+                "replayed on fresh JwkMemStore + KeyIdMemstore (fresh ids, public-only JWK, kid = thumbprint, alg, signatures "
+                "verifying under the key's own public JWK and under no other stored key, deleted/never-issued ids inert); long "
+                "random histories on one live store are trace-validated. Concurrent: TLC explores every interleaving of 3 "
+                "threads x 5 plans on one digest (atomic design holds; non-atomic design violates AtMostOneWinner); real "
+                "races of 2..16 threads are recorded with call/return stamps and TLC decides linearizability of every round.")
+    r = chk.mc("KeyStore", "KeyStore_%s.cfg" % chk.tier, workers=4, timeout=900, heap="3g")
+    chk.replay(r["cases_file"], timeout=3000)
+    chk.canary_cases(r["cases_file"], flip_case_expectation)
+    n_ev, n_tr = q(chk, (1500, 1), (5000, 6))
+    record_and_validate(chk, "C15.seq", "KeyStoreTrace", "KeyStoreTrace.cfg", n_ev, n_tr, "key_store/trace",
+                        canary=flip_ok_in_trace)
+    # design-level interleavings
+    chk.mc("MCKeyIdStore", "KeyIdStore_quick.cfg", emit=False, workers=q(chk, 4, 12), timeout=1800, heap="6g")
+    bad = vlib.tlc_model_check(chk.prop, "MCKeyIdStore", "KeyIdStore_nonatomic.cfg", emit=False, workers=2, timeout=300,
+                               expect_violation=True, heap="2g")
+    if not bad["violated"]:
+        raise ToolError("the non-atomic insert design should violate AtMostOneWinner — the invariant is vacuous")
+    chk.extra["nonatomic_design_counterexample_found"] = True
+    # real races, linearizability decided by TLC
+    rounds, n_tr = q(chk, (150, 1), (2500, 8))
+    record_and_validate(chk, "C15.race", "KeyIdStoreTrace", "KeyIdStoreTrace.cfg", rounds, n_tr, "key_id_store/race",
+                        canary=corrupt_race_trace, silent=True, timeout=3000)
+    chk.assumptions += ["Ed25519/SHA-256 primitives trusted; Stronghold store not exercised (build too heavy for this sandbox run)",
+                        "real-thread races sample schedules; exhaustive interleaving holds for the TLA+ design model only"]
